@@ -2,6 +2,7 @@ package c10
 
 import (
 	"context"
+	"crypto/tls"
 	"fmt"
 	"net"
 	"sync/atomic"
@@ -121,4 +122,75 @@ func TestC10RealDialers(t *testing.T) {
 		}
 	}
 	rec.Excluded("D66-netpoll-dialer-timeout-restarts-with-every-read", known)
+}
+
+// TestC10TLSStall: the timeout clause over TLS (the standard dialer is the only one that does TLS). The
+// peer accepts the TCP connection and says nothing at all: the client's handshake waits for a ServerHello
+// that never comes. A call given a request timeout, or read and write timeouts, returns no later than
+// that timeout plus slack; the same stall on a plain connection is the control.
+func TestC10TLSStall(t *testing.T) {
+	rec := ev.New("tls-stall")
+	const timeout = 300 * time.Millisecond
+	const hold = 3 * time.Second
+	for _, tlsOn := range []bool{false, true} {
+		for _, mode := range []string{"request-timeout", "read-write-timeouts", "read-timeout"} {
+			ln, err := net.Listen("tcp", "127.0.0.1:0")
+			if err != nil {
+				t.Fatalf("listen: %v", err)
+			}
+			go func() {
+				c, err := ln.Accept()
+				if err != nil {
+					return
+				}
+				time.Sleep(hold) // accepts and stalls
+				c.Close()
+			}()
+			opts := &http1.ClientOptions{Dialer: standard.NewDialer(), MaxConns: 1, DialTimeout: time.Second}
+			if tlsOn {
+				opts.TLSConfig = &tls.Config{InsecureSkipVerify: true} //nolint:gosec
+			}
+			hc := http1.NewHostClient(opts).(*http1.HostClient)
+			hc.Addr = ln.Addr().String()
+			hc.IsTLS = tlsOn
+			req, resp := protocol.AcquireRequest(), protocol.AcquireResponse()
+			scheme := "http"
+			if tlsOn {
+				scheme = "https"
+			}
+			req.SetRequestURI(scheme + "://example.com/stall")
+			switch mode {
+			case "request-timeout":
+				req.SetOptions(config.WithRequestTimeout(timeout), config.WithDialTimeout(time.Second))
+			case "read-timeout":
+				req.SetOptions(config.WithReadTimeout(timeout), config.WithDialTimeout(time.Second))
+			default:
+				req.SetOptions(config.WithReadTimeout(timeout), config.WithWriteTimeout(timeout), config.WithDialTimeout(time.Second))
+			}
+			probe := loadsense.Start()
+			t0 := time.Now()
+			done := make(chan error, 1)
+			go func() { done <- hc.Do(context.Background(), req, resp) }()
+			var callErr error
+			var el time.Duration
+			select {
+			case callErr = <-done:
+				el = time.Since(t0)
+			case <-time.After(hold + 2*time.Second):
+				el = time.Since(t0)
+				callErr = fmt.Errorf("(the call had not returned after %v)", el)
+			}
+			ln.Close()
+			rec.Case(true, ev.HashString(fmt.Sprint(tlsOn), mode), map[bool]string{true: "tls", false: "plain"}[tlsOn], mode)
+			if callErr == nil {
+				t.Errorf("tls=%v %s: the call succeeded against a peer that never answers", tlsOn, mode)
+				continue
+			}
+			if el > timeout+1500*time.Millisecond && probe.Stalled() < loadsense.Busy {
+				msg := fmt.Sprintf("tls=%v %s: a peer that accepts the connection and then stalls held the call for %v (timeout %v, the machine was not short of CPU); it returned %v", tlsOn, mode, el, timeout, callErr)
+				ev.Fail(prop, "tls-stall", map[string]interface{}{"tls": tlsOn, "mode": mode}, msg)
+				t.Errorf("%s", msg)
+			}
+		}
+	}
 }
